@@ -99,10 +99,15 @@ class PipeRelay(Relay):
         return [arg.format(**macros) for arg in self.args]
 
     def _exec_process(self, args, stdin):
-        p = subprocess.Popen(args, stdin=subprocess.PIPE,
-                             stdout=subprocess.PIPE,
-                             stderr=subprocess.PIPE,
-                             **self.popen_kwargs)
+        try:
+            p = subprocess.Popen(args, stdin=subprocess.PIPE,
+                                 stdout=subprocess.PIPE,
+                                 stderr=subprocess.PIPE,
+                                 **self.popen_kwargs)
+        except OSError as exc:
+            # The delivery program could not be started at all.
+            msg = 'Delivery failed: {0!s}'.format(exc)
+            return TransientRelayError(msg, Reply('451', '4.3.5 '+msg))
         log.popen(p, args)
         stdout, stderr = p.communicate(stdin)
         log.stdio(p, stdin, stdout, stderr)
